@@ -90,10 +90,10 @@ theorem anySet_nils (n : Nat) : anySet (nils n) = false :=
 
 /-- the field loop of `populate` on the leaves of canonical field values -/
 theorem canon_fields (fuel : Nat)
-    (ih : ∀ t, tySize t < fuel + 1 → structsBehindPtr t = true → ∀ v rest, CanonAt 0 t v →
+    (ih : ∀ t, tySize t < fuel + 1 → ∀ v rest, CanonAt 0 t v →
       populate (fuel + 1) t (flatLeaves (fuel + 1) t v ++ rest) = .ok (v, rest, !v.isNil) ∧
         (flatLeaves (fuel + 1) t v).length = leafN t) :
-    ∀ (fs : List FT), (∀ f ∈ fs, tySize f.2 < fuel + 1) → (∀ f ∈ fs, structsBehindPtr f.2 = true) →
+    ∀ (fs : List FT), (∀ f ∈ fs, tySize f.2 < fuel + 1) →
     ∀ fl, fs.length < fl → ∀ (fvs rest acc : List Val) (any : Bool), All2 Canon fs fvs →
       populate.fields (fuel + 1) fl fs (flatLeaves.go (fuel + 1) fl fs (some fvs) ++ rest) acc any =
           .ok (acc ++ fvs, rest, any || anySet fvs) ∧
@@ -101,7 +101,7 @@ theorem canon_fields (fuel : Nat)
   intro fs
   induction fs with
   | nil =>
-    intro _ _ fl hfl fvs rest acc any hc
+    intro _ fl hfl fvs rest acc any hc
     cases fl with
     | zero => omega
     | succ fl =>
@@ -112,7 +112,7 @@ theorem canon_fields (fuel : Nat)
         · unfold flatLeaves.go; rfl
       | cons _ _ => simp at hc
   | cons f fs ihfs =>
-    intro hsz hbp fl hfl fvs rest acc any hc
+    intro hsz fl hfl fvs rest acc any hc
     cases fl with
     | zero => omega
     | succ fl =>
@@ -120,9 +120,9 @@ theorem canon_fields (fuel : Nat)
       | nil => simp at hc
       | cons x xs =>
         simp only [All2_cons] at hc
-        obtain ⟨h1, h1l⟩ := ih f.2 (hsz f (by simp)) (hbp f (by simp)) x
+        obtain ⟨h1, h1l⟩ := ih f.2 (hsz f (by simp)) x
           (flatLeaves.go (fuel + 1) fl fs (some xs) ++ rest) hc.1
-        obtain ⟨h2, h2l⟩ := ihfs (fun g hg => hsz g (by simp [hg])) (fun g hg => hbp g (by simp [hg])) fl
+        obtain ⟨h2, h2l⟩ := ihfs (fun g hg => hsz g (by simp [hg])) fl
           (by simp at hfl; omega) xs rest (acc ++ [x]) (any || !x.isNil) hc.2
         constructor
         · rw [go_cons, populate_fields_step, List.append_assoc, h1]
@@ -132,16 +132,18 @@ theorem canon_fields (fuel : Nat)
         · rw [go_cons, List.length_append, h1l, h2l]
           simp
 
-/-- `populate` restores a canonical value from its leaves (and consumes exactly them) -/
-theorem populate_canon : ∀ (fuel : Nat) (t : Ty), tySize t < fuel → structsBehindPtr t = true →
+/-- `populate` restores a canonical value from its leaves (and consumes exactly them) — for every type:
+since the repair of P02 a struct held by value (pointer depth 0) is restored like one behind pointers
+(no "every struct behind a pointer" hypothesis) -/
+theorem populate_canon : ∀ (fuel : Nat) (t : Ty), tySize t < fuel →
     ∀ (v : Val) (rest : List Val), CanonAt 0 t v →
     populate fuel t (flatLeaves fuel t v ++ rest) = .ok (v, rest, !v.isNil) ∧
       (flatLeaves fuel t v).length = leafN t
-  | 0, _, h, _ => by omega
-  | 1, t, h, _ => by
+  | 0, _, h => by omega
+  | 1, t, h => by
     exfalso
     cases t <;> simp [tySize] at h
-  | fuel + 2, t, h, hbp => by
+  | fuel + 2, t, h => by
     intro v rest hc
     cases hs : stripPtrs t with
     | struct ifs =>
@@ -150,21 +152,18 @@ theorem populate_canon : ∀ (fuel : Nat) (t : Ty), tySize t < fuel → structsB
       · -- unset: all leaves unset
         rw [flatLeaves_nilv (fuel + 2) t h]
         obtain ⟨v', hp, _, hv'⟩ := populate_spec (fuel + 2) t h (nils (leafN t)) rest (nils_length _)
-          (Or.inr (fun _ hx => mem_nils hx))
         rw [hv' (fun _ hx => mem_nils hx), anySet_nils] at hp
         exact ⟨by simpa [Val.isNil] using hp, nils_length _⟩
       · have hsz : ∀ f ∈ ifs.toList, tySize f.2 < fuel + 1 := fun f hf => by
           have := tySize_field_lt hs hf; omega
-        have hb := structsBehindPtr_of_struct hs hbp
-        obtain ⟨hp, hl⟩ := canon_fields fuel (fun t' h' hb' v' rest' hc' => populate_canon (fuel + 1) t' h' hb' v' rest' hc')
-          ifs.toList hsz (fieldsBehindPtr_mem ifs hb.2) (ifs.toList.length + 1) (by omega) fvs rest [] false
+        obtain ⟨hp, hl⟩ := canon_fields fuel (fun t' h' v' rest' hc' => populate_canon (fuel + 1) t' h' v' rest' hc')
+          ifs.toList hsz (ifs.toList.length + 1) (by omega) fvs rest [] false
           (CanonFs_All2 ifs fvs hcf)
         simp only [Nat.zero_add]
         rw [flatLeaves_struct hs, strip_wrapPtrs, populate_struct hs, hp]
         simp only [List.nil_append, Bool.false_or, hany, if_true]
         refine ⟨?_, by rw [hl, leafN_of_struct hs]⟩
-        have hd : (ptrDepth t == 0) = false := by simp [hb.1]
-        simp [hd, wrapPtrs_struct_isNil]
+        simp [wrapPtrs_struct_isNil]
     | _ =>
       have hleaf : ∀ ifs, stripPtrs t ≠ .struct ifs := by intro ifs h'; rw [hs] at h'; cases h'
       rw [flatLeaves_leaf hleaf, populate_leaf hleaf, leafN_of_leaf hleaf]
@@ -172,8 +171,8 @@ theorem populate_canon : ∀ (fuel : Nat) (t : Ty), tySize t < fuel → structsB
 
 /-- canonical values are in the domain of the flatten mangler's losslessness -/
 theorem canon_flattenGood (fuel : Nat) (f : FT) (v : Val) (hsz : tySize f.2 < fuel)
-    (hbp : structsBehindPtr f.2 = true) (hc : Canon f v) : flattenGood fuel f v := by
-  obtain ⟨hp, hl⟩ := populate_canon fuel f.2 hsz hbp v [] hc
+    (hc : Canon f v) : flattenGood fuel f v := by
+  obtain ⟨hp, hl⟩ := populate_canon fuel f.2 hsz v [] hc
   rw [List.append_nil] at hp
   exact ⟨flatLeaves fuel f.2 v, !v.isNil, hl, hp⟩
 
@@ -325,12 +324,12 @@ alias encoding that flatten can restore -/
 theorem alias_flattenGood (tags : List String) (fuelF fuel : Nat) (fs fs1 : List FT) (vs : List Val)
     (h1 : mangleLayer fuel (aliasMangler tags) fs = .ok fs1)
     (hv : All2 (HG (aliasP tags)) fs vs) (hc : All2 Canon fs vs)
-    (hd : ∀ f ∈ fs1, tySize f.2 < fuelF ∧ structsBehindPtr f.2 = true) :
+    (hd : ∀ f ∈ fs1, tySize f.2 < fuelF) :
     All2 (flattenGood fuelF) fs1 (encLayer (aliasMangler tags) (losslessAlias tags).enc fuel fs vs) := by
   have hcn := ((alias_canon tags fuel).1 fs fs1 vs h1 hv hc).1
   apply All2.of_mem (All2.length hcn)
   intro f v hmem
   have hf := hd f (List.of_mem_zip hmem).1
-  exact canon_flattenGood fuelF f v hf.1 hf.2 (All2.mem hcn f v hmem)
+  exact canon_flattenGood fuelF f v hf (All2.mem hcn f v hmem)
 
 end Dials.Tf
